@@ -298,6 +298,18 @@ def run_twoport_src(case):
                     raise
                 except Exception as e:
                     res['net'][q] = {'error': type(e).__name__ + ': ' + str(e)[:80]}
+            # NetlistOpsMixin.twoport(model=X) on the emitted netlist: matrix and own source pair of the returned model
+            own = {'B': ('V2b', 'I2b'), 'A': ('V1a', 'I1a'), 'G': ('I1g', 'V2g'), 'H': ('V1h', 'I2h'), 'Y': ('I1y', 'I2y'), 'Z': ('V1z', 'V2z')}
+            res['tpmodel'] = {}
+            for X in case.get('tpmodels', ''):
+                try:
+                    mdl = mk().twoport(1, 0, 3, 2, model=X)
+                    res['tpmodel'][X] = {'cls': type(mdl).__name__, 'M': mat(getattr(mdl, X + 'params'), point),
+                                         'src': [sup(getattr(mdl, own[X][0]), point), sup(getattr(mdl, own[X][1]), point)]}
+                except CaseTimeout:
+                    raise
+                except Exception as e:
+                    res['tpmodel'][X] = {'error': type(e).__name__ + ': ' + str(e)[:80]}
     return res
 
 
